@@ -12,7 +12,6 @@ import SynapModel.Drv.Layer
 import SynapModel.Drv.Conv
 import SynapModel.Drv.Stab
 import SynapModel.Drv.ModuleFwd
-import SynapModel.Drv.Formulas
 /-!
 # `synapdrv` : line-protocol interpreter of the model
 
@@ -47,9 +46,6 @@ def step (st : State) (line : String) : State × String :=
   | "conv" :: rest => (st, Drv.Conv.run rest)
   | "stab" :: rest => (st, Drv.Stab.run rest)
   | "mf" :: rest => let (w, o) := Drv.ModuleFwd.run st.mf rest; ({ st with mf := w }, o)
-  | "gf" :: rest => (st, Drv.Formulas.run rest)
-  | "gs" :: rest => (st, Drv.Formulas.runStep rest)
-  | "ge" :: rest => (st, Drv.Formulas.runCond rest)
   | "reset" :: _ => ({}, "ok")
   | _ => (st, "bad-op")
 
